@@ -548,7 +548,21 @@ func fromNBT(n *refnbt.Node) (*Comp, error) {
 // ---------------------------------------------------------------------------------------------
 // rendering model
 
-var lang = map[string]string{"k.two": "%s and %s", "k.swap": "%[2]s %[1]s"}
+// lang is the language table the harness installs: formats of every arity 0..5, sequential and indexed
+// verbs, and a literal percent sign.
+var lang = map[string]string{
+	"k.zero":  "nothing",
+	"k.one":   "<%s>",
+	"k.two":   "%s and %s",
+	"k.swap":  "%[2]s %[1]s",
+	"k.pct":   "%s%% of %s",
+	"k.three": "%s, %s, %s",
+	"k.four":  "%s %s %s %s",
+	"k.five":  "%s-%s-%s-%s-%s",
+	"k.rev5":  "%[5]s%[4]s%[3]s%[2]s%[1]s",
+}
+
+var langKeys = []string{"k.zero", "k.one", "k.two", "k.swap", "k.pct", "k.three", "k.four", "k.five", "k.rev5"}
 
 var (
 	codePat = regexp.MustCompile(`§[0-9a-fA-Fk-oK-OrR]`)
@@ -557,31 +571,81 @@ var (
 
 func stripCodes(s string) string { return codePat.ReplaceAllString(s, "") }
 
+// expand is the harness's own reading of a translation format: "%s" takes the next argument, "%[n]s" the
+// n-th (and the following "%s" the one after it), "%%" is a percent sign. ok is false when the format names an
+// argument that does not exist, leaves an argument unused, or contains anything else: the statement fixes the
+// text only when the arguments are exactly the ones the format names.
+func expand(format string, args []string) (string, bool) {
+	var sb strings.Builder
+	used := make([]bool, len(args))
+	next := 0
+	for i := 0; i < len(format); i++ {
+		if format[i] != '%' {
+			sb.WriteByte(format[i])
+			continue
+		}
+		i++
+		if i >= len(format) {
+			return "", false
+		}
+		switch {
+		case format[i] == '%':
+			sb.WriteByte('%')
+			continue
+		case format[i] == '[':
+			j := strings.IndexByte(format[i:], ']')
+			n := 0
+			if j < 0 {
+				return "", false
+			}
+			if _, err := fmt.Sscanf(format[i+1:i+j], "%d", &n); err != nil {
+				return "", false
+			}
+			next = n - 1
+			i += j + 1
+			if i >= len(format) || format[i] != 's' {
+				return "", false
+			}
+		case format[i] != 's':
+			return "", false
+		}
+		if next < 0 || next >= len(args) {
+			return "", false
+		}
+		sb.WriteString(args[next])
+		used[next] = true
+		next++
+	}
+	for _, u := range used {
+		if !u {
+			return "", false
+		}
+	}
+	return sb.String(), true
+}
+
 // plain returns the expected plain rendering and whether the statement fixes it for this component.
 func plain(c *Comp) (string, bool) {
 	var sb strings.Builder
 	sb.WriteString(stripCodes(c.Text))
 	ok := true
 	if c.Translate != "" {
-		if _, known := lang[c.Translate]; !known || len(c.With) != 2 {
-			// unknown key, or an argument count that does not match the format: not fixed by the statement
-			ok = false
-		} else {
-			var a [2]string
-			for i, w := range c.With {
-				if w.Comp != nil {
-					s, o := plain(w.Comp)
-					ok = ok && o
-					a[i] = s
-				} else {
-					a[i] = stripCodes(*w.Str)
-				}
-			}
-			if c.Translate == "k.two" {
-				sb.WriteString(a[0] + " and " + a[1])
+		format, known := lang[c.Translate]
+		args := make([]string, len(c.With))
+		for i, w := range c.With {
+			if w.Comp != nil {
+				s, o := plain(w.Comp)
+				ok = ok && o
+				args[i] = s
 			} else {
-				sb.WriteString(a[1] + " " + a[0])
+				args[i] = stripCodes(*w.Str)
 			}
+		}
+		// unknown key, or an argument count that does not match the format: not fixed by the statement
+		if s, o := expand(format, args); known && o {
+			sb.WriteString(s)
+		} else {
+			ok = false
 		}
 	}
 	for _, e := range c.Extra {
@@ -621,7 +685,7 @@ func codeOrigin(c *Comp, code string) string {
 // case descriptor
 
 type Case struct {
-	Part   string `json:"part"` // comp | type
+	Part   string `json:"part"` // comp | ctor (the same component built through go-mc's constructors) | type
 	Comp   *Comp  `json:"comp,omitempty"`
 	ID     int32  `json:"id,omitempty"`
 	Target *Comp  `json:"target,omitempty"`
@@ -629,6 +693,9 @@ type Case struct {
 }
 
 func fail(class string, c Case, format string, a ...any) {
+	if c.Part == "ctor" {
+		class = "constructors/" + class
+	}
 	size := 0
 	tie := uint32(2166136261) ^ uint32(c.ID)
 	if c.Comp != nil {
@@ -671,15 +738,17 @@ func clipX(b []byte) string {
 }
 
 // compare got (a decoded chat.Message) with want; reports under class prefix.
-func compare(prefix string, cs Case, want *Comp, got chat.Message, what string) {
+func compare(prefix string, cs Case, want *Comp, got chat.Message, what string) bool {
 	g, err := fromMsg(got)
 	if err != nil {
 		fail(prefix+"/value-outside-model/"+errKind(err), cs, "%s produced %v", what, err)
-		return
+		return false
 	}
 	if d := diff(want, g); d != "" {
 		fail(prefix+"/"+d, cs, "%s: component %s came back as %s (first difference at %s)", what, want, g, d)
+		return false
 	}
+	return true
 }
 
 // readOneNBT parses data as ONE network-format value. When that fails because the value carries a second
@@ -720,9 +789,22 @@ func ev(n int64) { atomic.AddInt64(&evals, n) }
 // ---------------------------------------------------------------------------------------------
 // judge one component
 
-func judgeComp(c *Comp) {
-	cs := Case{Part: "comp", Comp: c}
-	m := toMsg(c)
+func judgeComp(c *Comp) { judgeMsg(Case{Part: "comp", Comp: c}) }
+
+// judgeCtor judges the same component built through go-mc's own constructors (see ctorMsg).
+func judgeCtor(c *Comp) { judgeMsg(Case{Part: "ctor", Comp: c}) }
+
+// buildMsg builds the chat.Message of a comp/ctor case.
+func buildMsg(cs Case) chat.Message {
+	if cs.Part == "ctor" {
+		return ctorMsg(cs.Comp)
+	}
+	return toMsg(cs.Comp)
+}
+
+func judgeMsg(cs Case) {
+	c := cs.Comp
+	m := buildMsg(cs)
 
 	// ---- JSON round trip
 	var js []byte
@@ -861,8 +943,12 @@ func judgeComp(c *Comp) {
 			}
 		}
 	}
-	judgeShapes(c, cs)
+	if cs.Part == "comp" {
+		judgeShapes(c, cs)
+		judgeNested(c, cs)
+	}
 	judgeRender(c, cs, m)
+	judgeAfterRender(c, cs, m)
 }
 
 func nbtErrKind(err error) string {
@@ -1339,8 +1425,8 @@ func markSeen(c *Comp) {
 
 func judge(cs Case) {
 	switch cs.Part {
-	case "comp":
-		judgeComp(cs.Comp)
+	case "comp", "ctor":
+		judgeMsg(cs)
 	case "type":
 		judgeType(cs)
 	default:
@@ -1409,7 +1495,7 @@ func selftest() {
 
 func main() {
 	rep = engine.NewReport("C17")
-	rep.Rule = "choice-tape walk of the component grammar (text, 5 flags, colour, font, insertion, click, hover, translate + 0..3 arguments of string/component kind, 0..2 extras, depth <= 3): every component with <= B departures from the empty component, plus the 2^5 flag product on 3 bases, plus chat.Type headers over (id, sender, target). distinct = distinct components (exact hash set over the canonical JSON of the model); non-trivial = all but the empty component"
+	rep.Rule = "choice-tape walk of the component grammar (text, 5 flags, colour, font, insertion, click, hover, translate + 0..3 arguments of string/component kind, 0..2 extras, depth <= 3): every component with <= B departures from the empty component, plus the 2^5 flag product on 3 bases, plus chat.Type headers over (id, sender, target), plus the fixed-menu families named in the extras (translation arity 0..5, all 44 formatting codes and their ordered pairs, string classes at every string position, nesting chains to depth 6), each also built through go-mc's constructors, plus the render-then-encode history on every component value. distinct = distinct components (exact hash set over the canonical JSON of the model); non-trivial = all but the empty component"
 	chat.SetLanguage(lang)
 	selftest()
 	if rep.ReplayPath != "" {
@@ -1428,6 +1514,9 @@ func main() {
 		rep.Eval(evals)
 		rep.Finish()
 	}
+	// the fixed-menu families first: they are small and must never be cut short by the walk's deadline
+	famCases := runFamilies()
+
 	// passes: (departure bound, deadline). The first pass of a tier has no effective deadline and is always
 	// complete; the second one re-walks the space with one more departure under a deadline and reports a cap
 	// when it is cut short.
@@ -1482,8 +1571,22 @@ func main() {
 			flagCases = append(flagCases, &c)
 		}
 	}
-	engine.ParallelFor(len(flagCases), func(_, i int) { markSeen(flagCases[i]); judgeComp(flagCases[i]) })
+	engine.ParallelFor(len(flagCases), func(_, i int) { markSeen(flagCases[i]); judgeComp(flagCases[i]); judgeCtor(flagCases[i]) })
 	rep.Count("components_from_flag_product", int64(len(flagCases)))
+
+	// the same grammar built through go-mc's constructors: every component with <= cb departures
+	cb := 3
+	if rep.Thorough() {
+		cb = 4
+	}
+	cst := engine.Explore(engine.ExploreOpts{Bound: cb, Workers: engine.Workers()}, func(ch *engine.Chooser) {
+		judgeCtor(gen(ch, 1))
+	})
+	rep.AddTrans(cst.Points)
+	rep.Count(fmt.Sprintf("components_built_through_constructors_with_bound_%d", cb), cst.Executions)
+	rep.Count("render_changed_the_callers_value", atomic.LoadInt64(&renderChanged))
+	rep.Count("nested_shape_documents_decoded", atomic.LoadInt64(&nestedDocs))
+	rep.Extra("nested_shape_menu", "every comp case: a second reference document in both forms with every text-only child (hover value, extra element, component argument) spelled as a bare string, and a third with every extra-only hover value spelled as a list (either list reading accepted)")
 
 	// chat.Type headers: senders = every component with <= tb departures
 	tb := 1
@@ -1515,9 +1618,10 @@ func main() {
 
 	rep.Eval(evals)
 	rep.AddTraces(evals)
+	_ = famCases
 	rep.NonTrivial(nSeen - 1 + int64(len(typeCases)))
 	rep.AddStates(nSeen + int64(len(typeCases)))
-	rep.Assume("refnbt (independent NBT reader/writer) and the harness's component model are trusted and self-tested on hand vectors; the language table is set by the harness (k.two='%s and %s', k.swap='%[2]s %[1]s'); equality is component equality: nil==empty and a bare string argument equals the text-only component with that text")
+	rep.Assume("refnbt (independent NBT reader/writer) and the harness's component model are trusted and self-tested on hand vectors; the language table is set by the harness (extra language_table); equality is component equality: nil==empty and a bare string argument equals the text-only component with that text")
 	rep.Note("unspecified: plain/ANSI text of translations with an unknown key or with an argument count different from the format's; which of the two list readings ({extra:[…]} or first-element-is-parent) a decoder applies; byte counts returned by WriteTo/ReadFrom; the JSON key set go-mc emits (only the round trip is stated for JSON)")
 	rep.Finish()
 }
